@@ -2,7 +2,7 @@
  * LD_PRELOAD fault injector for the C16 crash-consistency check.
  *
  * Every operation that changes a file below $CRASHPOINT_DIR is an *event*: write/pwrite/pwrite64/writev/pwritev ("W"),
- * unlink ("U"), rename ("R"), truncate/ftruncate ("F") and open/openat with O_TRUNC of an existing non-empty file ("T").
+ * unlink/remove ("U"), rename ("R"), truncate/ftruncate ("F") and open/openat with O_TRUNC of an existing non-empty file ("T").
  * Events are numbered 1, 2, ... by a counter shared by all processes of the squid instance (a 64-byte file, $CRASHPOINT_STATE,
  * mapped MAP_SHARED), so that helper processes (unlinkd, diskd) and I/O threads take part in the same numbering.
  *
@@ -37,6 +37,7 @@ static ssize_t (*real_pwrite64)(int, const void *, size_t, off64_t);
 static ssize_t (*real_writev)(int, const struct iovec *, int);
 static ssize_t (*real_pwritev)(int, const struct iovec *, int, off_t);
 static int (*real_unlink)(const char *);
+static int (*real_remove)(const char *);
 static int (*real_rename)(const char *, const char *);
 static int (*real_truncate)(const char *, off_t);
 static int (*real_ftruncate)(int, off_t);
@@ -66,6 +67,7 @@ init(void)
     real_writev = dlsym(RTLD_NEXT, "writev");
     real_pwritev = dlsym(RTLD_NEXT, "pwritev");
     real_unlink = dlsym(RTLD_NEXT, "unlink");
+    real_remove = dlsym(RTLD_NEXT, "remove");
     real_rename = dlsym(RTLD_NEXT, "rename");
     real_truncate = dlsym(RTLD_NEXT, "truncate");
     real_ftruncate = dlsym(RTLD_NEXT, "ftruncate");
@@ -335,6 +337,22 @@ unlink(const char *path)
     }
     errno = savedErrno;
     return real_unlink(path);
+}
+
+/* unlinkd removes files with remove(3) */
+int
+remove(const char *path)
+{
+    init();
+    const int savedErrno = errno;
+    char rel[4096];
+    if (countMeta && watchedPath(path, rel, sizeof(rel))) {
+        struct stat sb;
+        if (stat(path, &sb) == 0 && S_ISREG(sb.st_mode) && event('U', rel, 0, (long long)sb.st_size, NULL, 0) != 0)
+            die();
+    }
+    errno = savedErrno;
+    return real_remove(path);
 }
 
 int
